@@ -42,8 +42,9 @@ class Case:
 class Spec:
     def __init__(self, name, module, *, unwrapped=True, inv=None, x_cases=None, y_cases=None, statics=None,
                  kappa=1.0, has_inverse=True, onto=True, cond_example=None, tags=(), note="", sym_override=None,
-                 y_domain=None, seed=None):
+                 y_domain=None, seed=None, replay_P=None):
         self._seed = seed
+        self._replay_P = replay_P
         self.name = name
         self.raw_module = module
         m = unwrap(module) if unwrapped else module
@@ -77,6 +78,10 @@ class Spec:
 
     def invariants(self, ctx):
         return list(self._inv(self, ctx)) if self._inv else []
+
+    def replay_P(self, P):
+        """derived static quantities are recomputed by the REAL constructor from the free ones before a replay"""
+        return self._replay_P(self, P) if self._replay_P else P
 
     def seeds(self, ctx, interp, Psym, assume):
         """solver-justified lemmas about internal quantities (proved here, then asserted for the decider)"""
@@ -216,7 +221,13 @@ def spec_leakytanh(max_val=3.0, shape=()):
         t = 1 - 2 / (jx._sexp_plain(jx.Ctx(), 2 * m_) + 1)
         return [Case("y<-t", [y < -t]), Case("y==-t", [y == -t]), Case("-t<y<0", [y > -t, y < 0]), Case("y==0", [y == 0]),
                 Case("0<y<t", [y > 0, y < t]), Case("y==t", [y == t]), Case("y>t", [y > t])]
-    return Spec(f"LeakyTanh(sym max_val{'' if shape == () else shape})", b, statics=statics, inv=inv, x_cases=xc, y_cases=yc,
+    def rp(s, P):
+        m = float(np.asarray(P[-3]))
+        if not (m > 0):
+            return P
+        r = fb.LeakyTanh(m, shape)
+        return list(P[:-3]) + [r.max_val, r.linear_grad, r.intercept]
+    return Spec(f"LeakyTanh(sym max_val{'' if shape == () else shape})", b, statics=statics, inv=inv, x_cases=xc, y_cases=yc, replay_P=rp,
                 note="max_val, linear_grad, intercept symbolic under the constructor contract")
 
 
@@ -347,6 +358,9 @@ LEAVES = {
 
 def get(name):
     if name in LEAVES:
-        return LEAVES[name]()
-    from . import zoo2
-    return zoo2.get(name)
+        sp = LEAVES[name]()
+    else:
+        from . import zoo2
+        sp = zoo2.get(name)
+    sp.key = name
+    return sp
